@@ -41,4 +41,6 @@ Next ==
           \/ \E i \in 1..Len(wire[d]), m \in Deltas : Corrupt(d, i, Xor8(wire[d][i], m))
           \/ hs # "none" /\ Truncate(d)
 Spec == Init /\ [][Next]_mvars
+\* the client completes the handshake with a conforming server: only a fault makes the server reject
+NoFaultNoReject == faults = 0 => hs # "rejected" /\ \A d \in Dirs : ~dead[d] /\ hit[d] = 0
 =============================================================================
